@@ -244,6 +244,12 @@ class C18(Prop):
                 ops.append(['id', next(nsink), rng.choice([None, ['some', 0], ['some', 1]]), rng.random() < 0.5])
             else:
                 ops.append(['bad', next(nsink), rng.random() < 0.5])
+        if rng.random() < 0.25:
+            # one object in two roles: a rule whose sink is the fallback or the sink of another rule
+            rules = [o for o in ops if o[0] in ('prefix', 'id')]
+            if rules:
+                o = rng.choice(rules)
+                o[1] = rng.choice([0, 0] + [q[1] for q in rules if q is not o])
         ops += [['status', self.gen_event(rng)] for _ in range(rng.choice([1, 2, 3, 4, 5]))]
         if rng.random() < 0.35:
             codes = [rng.choice(['0', '1', 'x', 'ab']) for _ in range(rng.choice([1, 1, 2, 3]))]
